@@ -17,6 +17,7 @@ type idxShape struct {
 	typ      string
 	dim      int
 	clean    bool // a valid polygon without degenerate loops: vertex queries are meaningful under every model
+	removed  bool // removed from the index by ShapeIndex.Remove (its id stays reserved)
 	edges    []s2.Edge
 	ref      s2.ReferencePoint
 	vertices map[s2.Point]bool
@@ -104,15 +105,24 @@ func reversed(p []s2.Point) []s2.Point {
 }
 
 type collection struct {
-	kind   string
-	shapes []*idxShape
-	index  *s2.ShapeIndex
+	kind    string
+	history []string // index lifecycle so far: Add / Build / Remove / Reset steps
+	shapes  []*idxShape
+	index   *s2.ShapeIndex
 }
 
 func (c *collection) add(sh s2.Shape, typ string, clean bool, desc interface{}) *idxShape {
 	s := newIdxShape(sh, typ, clean, desc)
 	c.shapes = append(c.shapes, s)
 	return s
+}
+func (c *collection) anyRemoved() bool {
+	for _, s := range c.shapes {
+		if s.removed {
+			return true
+		}
+	}
+	return false
 }
 func (c *collection) numEdges() int {
 	n := 0
@@ -322,9 +332,12 @@ func genCollection(rng *vkit.Rng, kind int) *collection {
 func (c *collection) replay(extra map[string]interface{}) map[string]interface{} {
 	sh := []interface{}{}
 	for _, s := range c.shapes {
-		sh = append(sh, map[string]interface{}{"type": s.typ, "edges": len(s.edges), "desc": s.desc})
+		sh = append(sh, map[string]interface{}{"type": s.typ, "edges": len(s.edges), "desc": s.desc, "removed": s.removed})
 	}
 	out := map[string]interface{}{"collection": c.kind, "shapes": sh}
+	if len(c.history) > 0 {
+		out["history"] = c.history
+	}
 	for k, v := range extra {
 		out[k] = v
 	}
@@ -355,6 +368,10 @@ func checkDump(c *vkit.Collector, rng *vkit.Rng, col *collection, cells []s2.Ver
 		present := map[int32]*s2.VerifClipped{}
 		for k := range cell.Shapes {
 			cl := &cell.Shapes[k]
+			if cl.ShapeID >= 0 && int(cl.ShapeID) < len(col.shapes) && col.shapes[cl.ShapeID].removed {
+				c.Violate("ShapeIndex.cell", "index cell lists a shape that was removed from the index", rp(map[string]interface{}{"shapeID": cl.ShapeID}))
+				continue
+			}
 			if cl.ShapeID < 0 || int(cl.ShapeID) >= len(col.shapes) || (k > 0 && cell.Shapes[k-1].ShapeID >= cl.ShapeID) {
 				c.Violate("ShapeIndex.cell", "clipped shape ids out of range or not increasing", rp(map[string]interface{}{"shapeID": cl.ShapeID}))
 				continue
@@ -400,6 +417,9 @@ func checkDump(c *vkit.Collector, rng *vkit.Rng, col *collection, cells []s2.Ver
 			byShape[cell.Shapes[k].ShapeID] = &cell.Shapes[k]
 		}
 		for sid, sh := range col.shapes {
+			if sh.removed {
+				continue
+			}
 			cl := byShape[int32(sid)]
 			listed := map[int]bool{}
 			cc := false
@@ -488,6 +508,9 @@ func checkContainsQueries(c *vkit.Collector, rng *vkit.Rng, col *collection, cel
 			anyWant, skipAny := false, false
 			wantSet := map[int]bool{}
 			for sid, sh := range col.shapes {
+				if sh.removed {
+					continue
+				}
 				if !sh.clean && sh.vertices[p] {
 					skipAny = true // vertex of a degenerate polygon: containment at that vertex is not defined by parity
 					continue
@@ -594,6 +617,9 @@ func checkCrossingQueries(c *vkit.Collector, rng *vkit.Rng, col *collection, cel
 			}
 			wantMap := map[int][]int{}
 			for sid, sh := range col.shapes {
+				if sh.removed {
+					continue
+				}
 				want := bruteCrossings(sh, a, b, all)
 				if len(want) > 0 {
 					wantMap[sid] = want
@@ -981,6 +1007,9 @@ func correspondIndexOk(c *vkit.Collector, col *collection, cells []s2.VerifCell)
 	ne := make([]int, len(col.shapes))
 	for i, sh := range col.shapes {
 		ne[i] = len(sh.edges)
+		if sh.removed {
+			ne[i] = 0
+		}
 	}
 	c.Eval("T:index_okb:"+col.kind+fmt.Sprint(len(cells), ids), len(cells) > 0)
 	c.Check(fmt.Sprintf("index_okb %s (%d cells)", col.kind, len(cells)), fmt.Sprintf("(index_okb %s %s)%%Z", zlistPlain(ne), coqIndex(cells)))
@@ -996,7 +1025,7 @@ func zlistPlain(xs []int) string {
 
 func correspondIndex(c *vkit.Collector, rng *vkit.Rng, col *collection, cells []s2.VerifCell, n int) {
 	correspondIndexOk(c, col, cells)
-	if len(cells) > 24 || col.numEdges() > 48 || tBudget <= 0 {
+	if len(cells) > 24 || col.numEdges() > 48 || tBudget <= 0 || col.anyRemoved() {
 		return
 	}
 	tBudget--
@@ -1179,6 +1208,11 @@ func runIndex(c *vkit.Collector, rng *vkit.Rng, budget int) {
 		}
 		runOneCollection(c, rng, it, kind, &maxEdges, &maxCells)
 	}
+	okBudget = 4 * budget // Coq also decides index_okb on dumps taken after updates
+	runRemoveRegression(c, rng, &maxEdges, &maxCells)
+	for it := 0; it < 6*budget; it++ {
+		runLifecycle(c, rng, it, &maxEdges, &maxCells)
+	}
 	checkRegionsSafely(c, rng, budget)
 	c.Extra["index_max_edges"] = maxEdges
 	c.Extra["index_max_cells"] = maxCells
@@ -1200,8 +1234,6 @@ func checkRegionsSafely(c *vkit.Collector, rng *vkit.Rng, budget int) {
 }
 
 func runOneCollection(c *vkit.Collector, rng *vkit.Rng, it, kind int, maxEdgesP, maxCellsP *int) {
-	maxEdges, maxCells := *maxEdgesP, *maxCellsP
-	defer func() { *maxEdgesP, *maxCellsP = maxEdges, maxCells }()
 	var col *collection
 	safely(c, "building the collection", func() interface{} { return map[string]interface{}{"kind": kind, "iteration": it} }, func() { col = genCollection(rng, kind) })
 	if col == nil {
@@ -1211,17 +1243,23 @@ func runOneCollection(c *vkit.Collector, rng *vkit.Rng, it, kind int, maxEdgesP,
 		c.Violate("Shape.Edge", n, col.replay(map[string]interface{}{}))
 	}
 	panicNote = nil
+	validateAndQuery(c, rng, col, it, maxEdgesP, maxCellsP)
+}
+
+// validateAndQuery dumps the index as it is now (applying pending updates), validates the dump
+// (structure, completeness, containsCenter) and compares every query with brute force.
+func validateAndQuery(c *vkit.Collector, rng *vkit.Rng, col *collection, it int, maxEdgesP, maxCellsP *int) {
 	safely(c, "index build and queries", func() interface{} { return col.replay(map[string]interface{}{}) }, func() {
 		cells := col.index.VerifCells()
 		c.Class("index:" + col.kind)
 		c.Class(fmt.Sprintf("index: %d shapes", len(col.shapes)))
-		if col.numEdges() > maxEdges {
-			maxEdges = col.numEdges()
+		if col.numEdges() > *maxEdgesP {
+			*maxEdgesP = col.numEdges()
 		}
-		if len(cells) > maxCells {
-			maxCells = len(cells)
+		if len(cells) > *maxCellsP {
+			*maxCellsP = len(cells)
 		}
-		c.Eval(fmt.Sprintf("index:%d:%d:%d", it, col.numEdges(), len(cells)), col.numEdges() > 0)
+		c.Eval(fmt.Sprintf("index:%d:%d:%d:%d", it, col.numEdges(), len(cells), len(col.history)), col.numEdges() > 0)
 		if it < 3 {
 			c.Sample(col.replay(map[string]interface{}{"edges": col.numEdges(), "cells": len(cells)}))
 		}
@@ -1233,5 +1271,141 @@ func runOneCollection(c *vkit.Collector, rng *vkit.Rng, it, kind int, maxEdgesP,
 		checkContainsQueries(c, rng, col, cells, nq)
 		checkCrossingQueries(c, rng, col, cells, nq/2+1)
 		correspondIndex(c, rng, col, cells, 6)
+	})
+}
+
+// ---- index lifecycles: Add, query, Add more, query, Remove, query, Reset, Add, query ----
+
+// faceCentre returns a point near the centre of a cube face.
+func faceCentre(rng *vkit.Rng, face int) s2.Point {
+	ctr := s2.CellFromCellID(s2.CellIDFromFace(face)).Center()
+	return s2.Point{Vector: ctr.Add(randPoint(rng).Mul(0.3 * rng.Float())).Normalize()}
+}
+
+func (col *collection) addToIndex(rng *vkit.Rng, center s2.Point, radius s1.Angle, maxN int, what string) {
+	before := len(col.shapes)
+	addRandomShape(col, rng, center, radius, maxN)
+	for _, sh := range col.shapes[before:] {
+		col.index.Add(sh.shape)
+	}
+	col.history = append(col.history, fmt.Sprintf("Add %s (%s, %d edges)", what, col.shapes[len(col.shapes)-1].typ, len(col.shapes[len(col.shapes)-1].edges)))
+}
+
+// runRemoveRegression is the replay of the defect repaired by ecc132d (KNOWN_FINDINGS
+// ShapeIndex.Remove.reindexBound), run first in every run: Add a, b, c; Remove(a); then c must
+// still contain its centre; a later Add must be indexed; and with a single live shape whose id is
+// not 0 CrossingsEdgeMap must not dereference a nil shape. Every stage is also validated in full.
+func runRemoveRegression(c *vkit.Collector, rng *vkit.Rng, maxEdgesP, maxCellsP *int) {
+	col := &collection{kind: "lifecycle (regression ecc132d)", index: s2.NewShapeIndex()}
+	ll := func(lat, lng float64) s2.Point { return s2.PointFromLatLng(s2.LatLngFromDegrees(lat, lng)) }
+	centres := []s2.Point{ll(0, 0), ll(0, 90), ll(0, 180), ll(60, -90)}
+	add := func(k int) {
+		l := s2.RegularLoop(centres[k], s1.Angle(0.1), 8)
+		col.add(l, "Loop", true, map[string]interface{}{"type": "Loop", "center": p3(centres[k]), "radius": 0.1, "n": 8})
+		col.index.Add(l)
+		col.history = append(col.history, fmt.Sprintf("Add 8-gon %d", k))
+	}
+	remove := func(k int) {
+		col.index.Remove(col.shapes[k].shape)
+		col.shapes[k].removed = true
+		col.history = append(col.history, fmt.Sprintf("Remove shape %d", k))
+	}
+	expect := func(stage string) {
+		col.history = append(col.history, "query ("+stage+")")
+		safely(c, "regression "+stage, func() interface{} { return col.replay(map[string]interface{}{}) }, func() {
+			q := s2.NewContainsPointQuery(col.index, s2.VertexModelSemiOpen)
+			for k, sh := range col.shapes {
+				if sh.removed {
+					continue
+				}
+				c.Eval(fmt.Sprintf("regression:%s:%d", stage, k), true)
+				if !q.ShapeContains(sh.shape, centres[k]) {
+					c.Violate("ShapeIndex.Remove.reindexBound", fmt.Sprintf("%s: live shape %d no longer contains its own centre through the index", stage, k),
+						col.replay(map[string]interface{}{"shapeID": k, "p": p3(centres[k])}))
+				}
+			}
+			a, b := centres[0], centres[3]
+			_ = s2.NewCrossingEdgeQuery(col.index).CrossingsEdgeMap(a, b, s2.CrossingTypeAll)
+		})
+		validateAndQuery(c, rng, col, 2000+len(col.history), maxEdgesP, maxCellsP)
+	}
+	c.Class("index-lifecycle regression (ecc132d)")
+	add(0)
+	add(1)
+	add(2)
+	expect("built")
+	remove(0)
+	expect("after Remove(a)")
+	add(3)
+	expect("after Remove(a), Add(d)")
+	remove(1)
+	remove(3)
+	expect("one live shape with id 2")
+}
+
+func runLifecycle(c *vkit.Collector, rng *vkit.Rng, it int, maxEdgesP, maxCellsP *int) {
+	col := &collection{kind: "lifecycle", index: s2.NewShapeIndex()}
+	stage := func(name string) {
+		col.history = append(col.history, "query ("+name+")")
+		c.Class("index-lifecycle stage: " + name)
+		for _, n := range panicNote {
+			c.Violate("Shape.Edge", n, col.replay(map[string]interface{}{}))
+		}
+		panicNote = nil
+		validateAndQuery(c, rng, col, 1000+it, maxEdgesP, maxCellsP)
+	}
+	safely(c, "index lifecycle", func() interface{} { return col.replay(map[string]interface{}{}) }, func() {
+		// first batch on a middle face, so that later additions sort both before and after its cells
+		f0 := 1 + rng.Intn(4)
+		radius := pickRadius(rng)
+		if radius < 0.01 {
+			radius = 0.05
+		}
+		for i, n := 0, 1+rng.Intn(3); i < n; i++ {
+			col.addToIndex(rng, faceCentre(rng, f0), radius, 200, fmt.Sprintf("on face %d", f0))
+		}
+		if rng.Intn(4) != 0 {
+			stage("first build")
+		} // else: the first build happens with the second batch pending as well
+		// second batch: faces 0 and 5 (cell ids below and above everything so far), and one overlapping
+		col.addToIndex(rng, faceCentre(rng, 0), radius, 200, "on face 0")
+		col.addToIndex(rng, faceCentre(rng, 5), radius, 200, "on face 5")
+		if rng.Bool() {
+			col.addToIndex(rng, faceCentre(rng, f0), radius, 64, fmt.Sprintf("overlapping on face %d", f0))
+		}
+		stage("after adding to a built index")
+		// Remove one or two shapes: in even lifecycles the highest live ids (the ids stay contiguous),
+		// in odd ones any shape
+		for k := 0; k < 1+rng.Intn(2); k++ {
+			live := []int{}
+			for i, sh := range col.shapes {
+				if !sh.removed {
+					live = append(live, i)
+				}
+			}
+			if len(live) <= 1 {
+				break
+			}
+			i := live[len(live)-1]
+			if it%2 == 1 {
+				i = live[rng.Intn(len(live))]
+			}
+			col.index.Remove(col.shapes[i].shape)
+			col.shapes[i].removed = true
+			col.history = append(col.history, fmt.Sprintf("Remove shape %d", i))
+		}
+		stage("after Remove")
+		if rng.Bool() {
+			col.addToIndex(rng, faceCentre(rng, rng.Intn(6)), radius, 100, "after Remove")
+			stage("after Remove and Add")
+		}
+		// Reset and start again with the same index object
+		col.index.Reset()
+		col.shapes = nil
+		col.history = append(col.history, "Reset")
+		col.addToIndex(rng, faceCentre(rng, rng.Intn(6)), radius, 100, "after Reset")
+		stage("after Reset")
+		col.addToIndex(rng, faceCentre(rng, rng.Intn(6)), radius, 100, "to the rebuilt index")
+		stage("after Reset, build, Add")
 	})
 }
